@@ -5,6 +5,7 @@ pub mod c02;
 pub mod c08;
 pub mod c09;
 pub mod c12;
+pub mod c13;
 pub mod c20;
 
 pub fn dispatch(prop: &str, ctx: &Ctx) -> ! {
@@ -14,9 +15,11 @@ pub fn dispatch(prop: &str, ctx: &Ctx) -> ! {
         "C08" => c08::run(ctx),
         "C09" => c09::run(ctx),
         "C12" => c12::run(ctx),
+        "C13" => c13::run(ctx),
         "C20" => c20::run(ctx),
         "CALIBRATE" => {
             println!("tree: {:?}", crate::refmodel::tree::calibrate());
+            println!("keysched: {:?}", crate::refmodel::keysched::calibrate());
             std::process::exit(0)
         }
         _ => {
